@@ -11,6 +11,11 @@ NOTE = ("claims are over the reals within the bounds stated in the evidence file
         "classes and term transformations of /verif/vf (validated each run against the real code on floats), stub contracts listed in the evidence")
 
 CHECKS = {
+    "C17": ("5 C17", "real save / load code (pandas, json, joblib, scratch directory) on objects with all-distinct symbolic fields tunnelled as "
+                     "unique tokens: ProcessModel from all four generators x 3 modes x {binary, JSON} (N = 2, thorough 3), DiffusionCurve x 3 "
+                     "modes x 2 bases x 3 units, PervaporationFunction (binary + JSON), Conditions (JSON): every persisted field, unit / basis "
+                     "conversion on load, None <-> NaN, lengths; save histories with a stubbed clock incl. forced directory-name collisions "
+                     "(earlier directories byte-identical)"),
     "C20": ("5 C20", "frame condition: 15 modelling entry points executed on shared symbolic argument objects (real Membrane with symbolic "
                      "experiments, mixture, curve set, conditions, permeances, measurements); deep snapshot (identities, fields, lengths, numpy "
                      "buffers, term ids) of all arguments and of every pyvaporation module's module-level state compared on every leaf; each "
